@@ -7,27 +7,67 @@ from pathlib import Path
 sys.path.insert(0, '/verif')
 PIDS = [f"C{i:02d}" for i in range(1, 21)]
 
-def one(patch):
+OLD_BASE = '9c75944'          # the tree the behaviour-preserving patch sets were written against (before the fixes of round 4)
+OLD_BASE_DIR = Path('/tmp/vfpe-base-' + OLD_BASE)
+
+
+def old_base():
+    """(directory, findings of every check on it): patches that no longer apply to /repo's HEAD are measured against the tree they were
+    written for, and only findings that the unpatched old tree does not have count (that tree has the defects fixed since)"""
+    if not (OLD_BASE_DIR / 'src').exists():
+        OLD_BASE_DIR.mkdir(parents=True, exist_ok=True)
+        subprocess.run(f'git -C /repo archive {OLD_BASE} src/experimaestro | tar -x -C {OLD_BASE_DIR}', shell=True, check=True)
+    cache = OLD_BASE_DIR / 'baseline.json'
+    import hashlib
+    digest = hashlib.sha1(b''.join(Path(f).read_bytes() for f in sorted(map(str, Path('/verif/sa').rglob('*.py'))) + sorted(map(str, Path('/verif/spec').glob('*.json'))))).hexdigest()
+    if cache.exists():
+        d = json.loads(cache.read_text())
+        if d.get('digest') == digest:
+            return OLD_BASE_DIR, {k: set(v) for k, v in d['keys'].items()}
+    _, keys = evaluate(OLD_BASE_DIR)
+    cache.write_text(json.dumps({'digest': digest, 'keys': {k: sorted(v) for k, v in keys.items()}}))
+    return OLD_BASE_DIR, keys
+
+
+def evaluate(root, baseline=None):
     from sa.cli import run_check
     from sa.loader import Tree
+    os.environ['VERIF_REPO'] = str(root)
+    try:
+        tree = Tree(root)
+    except Exception as e:
+        return {"loader": (2, [str(e)[:100]], [])}, {}
+    row, keys = {}, {}
+    for pid in PIDS:
+        buf = io.StringIO()
+        with contextlib.redirect_stdout(buf):
+            chk, code = run_check(pid, 'quick', 0, write=False, tree=tree, quiet=True)
+        ks = {f"{f.rule} {f.key}" for f in chk.findings} | {u['rule'] + ' UNDECIDED ' + u['message'][:100] for u in chk.undecided}
+        keys[pid] = ks
+        new = ks - (baseline or {}).get(pid, set())
+        if code and new:
+            rules = sorted({k.split(' ')[0] for k in new})
+            row[pid] = (2 if all(' UNDECIDED ' in k for k in new) else 1, rules, sorted(new)[:6])
+    return row, keys
+
+
+def one(patch):
     tmp = Path(tempfile.mkdtemp(prefix='vfpe-'))
     try:
         shutil.copytree('/repo/src/experimaestro', tmp / 'src' / 'experimaestro', ignore=shutil.ignore_patterns('__pycache__', 'node_modules'))
         r = subprocess.run(['patch', '-p1', '-s', '--no-backup-if-mismatch', '-i', patch], cwd=tmp, capture_output=True, text=True)
         if r.returncode:
-            return patch, None
-        os.environ['VERIF_REPO'] = str(tmp)
-        try:
-            tree = Tree(tmp)
-        except Exception as e:
-            return patch, {"loader": (2, [str(e)[:100]], [])}
-        row = {}
-        for pid in PIDS:
-            buf = io.StringIO()
-            with contextlib.redirect_stdout(buf):
-                chk, code = run_check(pid, 'quick', 0, write=False, tree=tree, quiet=True)
-            if code:
-                row[pid] = (code, sorted({f.rule for f in chk.findings}) or ['undecided'], [f"{f.rule} {f.key}" for f in chk.findings][:4] + [u['rule'] + ' UNDECIDED ' + u['message'][:100] for u in chk.undecided][:3])
+            if os.environ.get('PE_NO_OLD_BASE'):
+                return patch, None
+            base, baseline = old_base()
+            shutil.rmtree(tmp / 'src')
+            shutil.copytree(base / 'src', tmp / 'src')
+            r = subprocess.run(['patch', '-p1', '-s', '--no-backup-if-mismatch', '-i', patch], cwd=tmp, capture_output=True, text=True)
+            if r.returncode:
+                return patch, None
+            row, _ = evaluate(tmp, baseline)
+            return patch, row
+        row, _ = evaluate(tmp)
         return patch, row
     finally:
         shutil.rmtree(tmp, ignore_errors=True)
